@@ -8,9 +8,11 @@ import (
 	"os"
 	"os/exec"
 	"runtime"
+	"syscall"
 	"testing"
 	"time"
 
+	"github.com/openfga/language/pkg/go/graph"
 	"github.com/openfga/language/pkg/go/transformer"
 )
 
@@ -25,12 +27,16 @@ type childReq struct {
 }
 
 type childResp struct {
+	CPUNanos   int64  `json:"cpu_nanos"` // user+system CPU time of the operation (getrusage)
+	CPUKilled  bool   `json:"cpu_killed,omitempty"`
 	Result     string `json:"result"`
 	Mallocs    uint64 `json:"mallocs"`
 	TotalAlloc uint64 `json:"total_alloc"`
 	Panic      string `json:"panic,omitempty"`
 	NanosWall  int64  `json:"nanos_wall"`
 }
+
+const childCPULimitSeconds = 40
 
 func TestMain(m *testing.M) {
 	if os.Getenv("VERIF_CHILD") != "" {
@@ -48,6 +54,13 @@ func childMain() {
 		os.Exit(0)
 	}
 	var resp childResp
+	// CPU budget enforced by the kernel: load on the machine cannot turn a slow run into a "hang"
+	_ = syscall.Setrlimit(syscall.RLIMIT_CPU, &syscall.Rlimit{Cur: childCPULimitSeconds, Max: childCPULimitSeconds + 5})
+	cpu := func() int64 {
+		var ru syscall.Rusage
+		_ = syscall.Getrusage(syscall.RUSAGE_SELF, &ru)
+		return ru.Utime.Nano() + ru.Stime.Nano()
+	}
 	func() {
 		defer func() {
 			if r := recover(); r != nil {
@@ -57,7 +70,9 @@ func childMain() {
 		var before, after runtime.MemStats
 		runtime.ReadMemStats(&before)
 		t0 := time.Now()
+		c0 := cpu()
 		resp.Result = runOp(req.Op, req.Text, req.More)
+		resp.CPUNanos = cpu() - c0
 		resp.NanosWall = time.Since(t0).Nanoseconds()
 		runtime.ReadMemStats(&after)
 		resp.Mallocs = after.Mallocs - before.Mallocs
@@ -89,6 +104,28 @@ func runOp(op, text string, more []string) string {
 			return "ERR:" + err.Error()
 		}
 		return "OK:" + *d
+	case "dslgraph":
+		// parse, then both graph builders (work-scaling families)
+		m, err := transformer.TransformDSLToProto(text)
+		if err != nil {
+			return "ERR:" + err.Error()
+		}
+		out := "OK"
+		if g, err := graph.NewAuthorizationModelGraph(m); err == nil {
+			out += fmt.Sprint(len(g.GetDOT()))
+			if r, err := g.Reversed(); err == nil {
+				out += fmt.Sprint(len(r.GetDOT()))
+			}
+		}
+		if wg, err := graph.NewWeightedAuthorizationModelGraphBuilder().Build(m); err == nil {
+			out += fmt.Sprint(len(wg.GetNodes()))
+		} else {
+			out += "ERR"
+		}
+		if d, err := transformer.TransformJSONProtoToDSL(m); err == nil {
+			out += fmt.Sprint(len(d))
+		}
+		return out
 	case "jsonall":
 		// JSON model -> DSL, plain graph DOT, weighted graph dump
 		out := runOp("json", text, nil)
@@ -146,7 +183,12 @@ func runChild(req childReq, timeout time.Duration) (childResp, bool) {
 	done := make(chan error, 1)
 	go func() { done <- cmd.Wait() }()
 	select {
-	case <-done:
+	case err := <-done:
+		if ee, ok := err.(*exec.ExitError); ok {
+			if ws, ok := ee.Sys().(syscall.WaitStatus); ok && ws.Signaled() && (ws.Signal() == syscall.SIGXCPU || ws.Signal() == syscall.SIGKILL) {
+				return childResp{CPUKilled: true}, true
+			}
+		}
 	case <-time.After(timeout):
 		_ = cmd.Process.Kill()
 		<-done
